@@ -58,7 +58,8 @@ Record facts := {
   tcp_timeout : bool;           (* the accepted TCP socket gets a timeout before recv *)
   reply_guarded : bool;         (* brine.dump(reply) sits inside the guarded region of _work *)
   register_validates : bool;    (* cmd_register refuses an address it could not send back in a reply *)
-  tcp_closes_unanswered : bool  (* TCP _recv closes accepted sockets whose request got no reply *)
+  tcp_closes_unanswered : bool; (* TCP _recv closes accepted sockets whose request got no reply *)
+  register_self_equal : bool    (* cmd_register refuses an address that is not == to a copy of itself (NaN) *)
 }.
 
 (* what one request asks for, after decoding and all the type checks the commands perform before
@@ -174,7 +175,8 @@ Fixpoint texts_of (l : list pyval) : option (list text) :=
 Definition addr_val (a : addr) : pyval := PTuple [PStr (fst a); snd a].
 (* the repaired cmd_register evaluates brine.dump(((host, port),)) before touching the table *)
 Definition accepted (host : text) (port : pyval) : bool :=
-  negb (register_validates F) || enc (PTuple [addr_val (host, port)]).
+  (negb (register_validates F) || enc (PTuple [addr_val (host, port)]))
+  && (negb (register_self_equal F) || keq port port).
 Definition classify_args (host : text) (k : cmd) (al : list pyval) : req :=
   match k, al with
   | CQuery, [PStr n] => RQuery (upper n)
@@ -341,10 +343,10 @@ Definition skel_guarded (k : skeleton) : bool := skel_in k [lk_textcheck; lk_ift
 Definition skel_reply_guarded (k : skeleton) : bool := skel_in k all_lk [tl_dump_guarded; tl_all_guarded].
 
 (* cmd_register skeleton *)
-Inductive gstmt := GJoinCheck | GReplyCheck | GAddLoop | GReturnOK.
+Inductive gstmt := GJoinCheck | GReplyCheck | GRoundTripCheck | GAddLoop | GReturnOK.
 Definition gstmt_eqb (a b : gstmt) : bool :=
   match a, b with
-  | GJoinCheck, GJoinCheck | GReplyCheck, GReplyCheck | GAddLoop, GAddLoop | GReturnOK, GReturnOK => true
+  | GJoinCheck, GJoinCheck | GReplyCheck, GReplyCheck | GRoundTripCheck, GRoundTripCheck | GAddLoop, GAddLoop | GReturnOK, GReturnOK => true
   | _, _ => false
   end.
 Fixpoint gskel_eqb (a b : list gstmt) : bool :=
@@ -356,7 +358,11 @@ Fixpoint gskel_eqb (a b : list gstmt) : bool :=
 Definition gskel_plain : list gstmt := [GJoinCheck; GAddLoop; GReturnOK].
 Definition gskel_validating : list gstmt := [GJoinCheck; GReplyCheck; GAddLoop; GReturnOK].
 Definition gskel_validating' : list gstmt := [GReplyCheck; GJoinCheck; GAddLoop; GReturnOK].
-Definition gskel_validates (k : list gstmt) : bool := gskel_eqb k gskel_validating || gskel_eqb k gskel_validating'.
+(* load(dump(((host, port),))) != ((host, port),) -> refuse: encodes like GReplyCheck and compares with a copy *)
+Definition gskel_roundtrip : list gstmt := [GJoinCheck; GRoundTripCheck; GAddLoop; GReturnOK].
+Definition gskel_self_equal (k : list gstmt) : bool := gskel_eqb k gskel_roundtrip.
+Definition gskel_validates (k : list gstmt) : bool :=
+  gskel_eqb k gskel_validating || gskel_eqb k gskel_validating' || gskel_eqb k gskel_roundtrip.
 Definition gskel_known (k : list gstmt) : bool := gskel_eqb k gskel_plain || gskel_validates k.
 
 (* _remove_service skeleton *)
@@ -501,11 +507,13 @@ Definition services_sx (s : services) : sx :=
              SL [text_sx (fst e); SL (map (fun x : addr * Z => SL [addr_sx (fst x); SI (snd x)]) (snd e))]) s).
 Definition facts_of_sx (x : sx) : facts :=
   match x with
-  | SL [g; n; t; rg; rv; tc] =>
+  | SL [g; n; t; rg; rv; tc; se] =>
       {| lookup_guarded := sx_bool g; notify_only_present := sx_bool n; tcp_timeout := sx_bool t;
-         reply_guarded := sx_bool rg; register_validates := sx_bool rv; tcp_closes_unanswered := sx_bool tc |}
+         reply_guarded := sx_bool rg; register_validates := sx_bool rv; tcp_closes_unanswered := sx_bool tc;
+         register_self_equal := sx_bool se |}
   | _ => {| lookup_guarded := false; notify_only_present := false; tcp_timeout := false;
-            reply_guarded := false; register_validates := false; tcp_closes_unanswered := false |}
+            reply_guarded := false; register_validates := false; tcp_closes_unanswered := false;
+            register_self_equal := false |}
   end.
 Definition reply_sx (P : bparams) (r : option pyval) : sx :=
   match r with
